@@ -289,15 +289,17 @@ func (e *executor) execCall(fr *frame, st *State, in *Instr) error {
 			return err
 		}
 		ver := st.mapVer[mi.Name]
-		pres := fmt.Sprintf("map_%s_v%d_present", smt.Sanitize(mi.Name), ver)
-		vals := fmt.Sprintf("map_%s_v%d_value", smt.Sanitize(mi.Name), ver)
-		ks := smt.BV(int(8 * mi.KeySize))
-		e.tm.declFun(pres, []string{ks}, smt.Bool)
-		e.tm.declFun(vals, []string{ks}, arrSort)
-		found := e.tm.named("found_"+mi.Name, smt.App(smt.Bool, pres, key))
+		inst := e.mapInstance(mi, ver, key)
+		found := inst.present
 		r := e.newRegion(rkMapVal, fmt.Sprintf("%s_%d", mi.Name, len(e.probes.calls)), mi.ValueSize)
 		r.Map = mi.Name
-		r.init = &RegMem{Base: e.tm.named("mapval_"+mi.Name, smt.App(arrSort, vals, key)), Ov: map[int64]Byte{}}
+		// contents: byte k of the value is byte k of the instance's value constant;
+		// the base array only backs accesses at variable offsets, and every
+		// in-bounds offset is covered by the byte overlay
+		r.init = &RegMem{Base: r.init.Base, Ov: make(map[int64]Byte, mi.ValueSize)}
+		for i := int64(0); i < mi.ValueSize; i++ {
+			r.init.Ov[i] = Byte{V: intVal(inst.bytes[i], 8)}
+		}
 		set(e.mergeVal(found, e.ptrTo(r, 0), e.nullPtr()))
 		old, ok := st.found[mi.Name]
 		if !ok {
@@ -306,7 +308,7 @@ func (e *executor) execCall(fr *frame, st *State, in *Instr) error {
 		st.found[mi.Name] = e.tm.named("everfound_"+mi.Name, smt.Or(old, found))
 		cp.mapName, cp.key, cp.keySize, cp.found, cp.valSize = mi.Name, key, int(mi.KeySize), found, int(mi.ValueSize)
 		for i := int64(0); i < mi.ValueSize; i++ {
-			cp.valBytes = append(cp.valBytes, smt.Select(r.init.Base, lit(uint64(i), 64)))
+			cp.valBytes = append(cp.valBytes, r.init.Ov[i].V.T)
 		}
 	case "bpf_map_update_elem":
 		mi, err := e.mapOfPtr(args[0])
@@ -639,4 +641,41 @@ func (e *executor) callSpec(fr *frame, f *Function, post, pre *State, args []*Va
 		}
 	}
 	return nil
+}
+
+// mapInst is one (map version, key) pair whose entry the run talks about:
+// presence and value bytes are fresh constants, and instances of the same map
+// version are tied together by "equal keys, equal entry" (Ackermann's
+// reduction of the ghost functions present(key) / value(key), done explicitly
+// so that the queries contain no uninterpreted functions).
+type mapInst struct {
+	key     smt.Term
+	present smt.Term
+	value   smt.Term   // BV(8*value_size), byte 0 in the low bits
+	bytes   []smt.Term // named byte terms
+}
+
+func (e *executor) mapInstance(mi *MapInfo, ver int, key smt.Term) *mapInst {
+	mk := fmt.Sprintf("%s#%d", mi.Name, ver)
+	for _, in := range e.mapInsts[mk] {
+		if in.key.S == key.S {
+			return in
+		}
+	}
+	n := len(e.mapInsts[mk])
+	base := fmt.Sprintf("map_%s_v%d_k%d", smt.Sanitize(mi.Name), ver, n)
+	in := &mapInst{key: key,
+		present: e.tm.declConst(base+"_present", smt.Bool),
+		value:   e.tm.declConst(base+"_value", smt.BV(int(8*mi.ValueSize)))}
+	for i := int64(0); i < mi.ValueSize; i++ {
+		in.bytes = append(in.bytes, e.tm.named("ld", e.tm.extract(in.value, int(8*i+7), int(8*i))))
+	}
+	for j, old := range e.mapInsts[mk] {
+		ax := smt.Implies(smt.Eq(key, old.key), smt.And(smt.Eq(in.present, old.present), smt.Eq(in.value, old.value)))
+		for _, k := range []string{in.present.S, in.value.S} {
+			e.tm.axiom(fmt.Sprintf("mapinst:%s:%d:%d:%s", mk, n, j, k), ax, k)
+		}
+	}
+	e.mapInsts[mk] = append(e.mapInsts[mk], in)
+	return in
 }
